@@ -334,6 +334,23 @@ pub fn run(p: &[String]) -> Vec<String> {
             if hi != exp_hi { problems.push(format!("highest column/row {:?} expected {:?}", hi, exp_hi)); }
             if problems.is_empty() { vec!["coherent".to_string()] } else { let mut v = vec!["incoherent".to_string()]; v.extend(problems.iter().map(|s| hex(s))); v }
         }
+        // ---- C20
+        "csv_export" => {
+            // "c,r=hex;..." do_trim wrap
+            let mut book = umya_spreadsheet::new_file();
+            let ws = book.get_sheet_by_name_mut("Sheet1").unwrap();
+            for item in unhex(&p[1]).split(';').filter(|s| !s.is_empty()) {
+                let (k, v) = item.split_once('=').unwrap();
+                let (c, r) = k.split_once(',').unwrap();
+                ws.get_cell_mut((u(c), u(r))).set_value_string(unhex(v));
+            }
+            let mut opt = umya_spreadsheet::structs::CsvWriterOption::default();
+            opt.set_do_trim(b(&p[2]));
+            opt.set_wrap_with_char(unhex(&p[3]));
+            let mut c = std::io::Cursor::new(Vec::new());
+            umya_spreadsheet::writer::csv::write_writer(&book, &mut c, &opt).unwrap();
+            vec![c.into_inner().iter().map(|x| format!("{:02x}", x)).collect::<String>()]
+        }
         // ---- C13
         "fsize_save" => {
             // kind dir big : save into dir/out.<ext> (pre-existing with content "OLD"); the caller sets RLIMIT_FSIZE
